@@ -459,6 +459,7 @@ def c18_literals(g, n):
     lits = ["0", "1", "-1", "+1", "1.5", "-1.5", "1e5", "1E5", "1e+5", "1e-5", "5.", "0.5", "00.50", "1_000", "0x10", "1e001",
             "0e99", "0e39", "-0e40", "1e38", "1e39", "0.1e39", "17e37", "18e37", "170141183460469231731687303715884105727",
             "170141183460469231731687303715884105728", "-170141183460469231731687303715884105727",
+            "-170141183460469231731687303715884105728", "-0170141183460469231731687303715884105728",
             "0.000000000000000001", "0.0000000000000000001", "1.000000000000000000", "1.0000000000000000000",
             "440282366920938463463374607431768211456", "3402823669209384634633746074317682114567", "0.0e40", "000E+40",
             "0.0000000000000000000000000000000000000001e22", "1e0", "1.e5" if False else "1.0e5", "12345678.12345678", "1234567812345678"]
@@ -486,10 +487,10 @@ def c18_literals(g, n):
         e = r.randrange(fz - 18 if fz > 18 else 0, fz + 3)
         lits.append(r.choice(["", "-"]) + ip + "." + g.digits(r.randrange(0, 4)) + "0" * fz + f"e{e}")
     if len(lits) > n:
-        head = lits[:40]
-        rest = lits[40:]
+        head = lits[:42]
+        rest = lits[42:]
         r.shuffle(rest)
-        lits = head + rest[: max(0, n - 40)]
+        lits = head + rest[: max(0, n - 42)]
     while len(lits) < n:
         sign = r.choice(["", "", "-", "+"])
         if r.random() < 0.08:    # a zero with random fraction digits and exponent
